@@ -659,5 +659,7 @@ def check(ctx):
     ctx.run('C10.R7', 'successful result is the caller\'s buffer; reset asserts Complete', r7_extract)
     ctx.run('C10.R9', 'vectored composites: the transferred count is distributed over the iovecs (emptied / decreased / advanced / stop)', r9_iovec_walk)
     ctx.run('C10.R10', 'buffer wrappers pass every completion on to the inner buffer (same count, every path) and record last_read', r10_wrapper_hooks)
+    from . import c14
+    ctx.run('C10.R11', 'iovec views do what the walk assumes: set_len stores, skip advances and shortens (=C14.R9)', c14.r9_iovec_wrappers)
     from . import c13
     ctx.run('C10.R8', 'every completion tells the buffer its size (set_init/buffer_init on every path, from this completion): the read_n/recv_n counters depend on it (=C13.R5)', c13.r5_decoders)
